@@ -17,4 +17,21 @@ CHECKS = {
              "timeout": {"quick": 600, "thorough": 3000}},
         ],
     },
+    "C01": {
+        "level": "exploration",
+        "rule": ("model-based stateful histories (rapid t.Repeat): generated schema (1..6 columns from all 14 value kinds + optional key column, "
+                 "late columns, custom merge functions, every Capacity option) and actions {txn of 1..12 steps (update/insert/delete/own-insert update; "
+                 "puts and merges through 5 writer paths), prefill (1..70, word sizes, 16384+-3, ~33000 rows), patterned bulk delete, create late column}; "
+                 "oracle = independent in-memory reference model; after every transaction Count and every touched row through two of four reader paths, "
+                 "full Range dump when <=200 rows, full dumps at the end (typed and Any readers, point reads). "
+                 "non-trivial = the final state is non-empty and the history has >=1 of {row in block>=1, offset reused after delete, >=2 writes to one "
+                 "row+column in one txn, descending offsets in one txn, late column written}; distinct = hash of the full action trace"),
+        "assumptions": ["values are in the documented domain (strings <= 65535 bytes; SetAny/SetMany values have the column's Go type)",
+                        "writes target rows that are live when issued (writes to dead offsets are outside the property)",
+                        "histories are bounded: <= 3 blocks (offsets < 49152), ~30 actions, <= 12 steps per transaction"],
+        "tests": [
+            {"run": "^TestC01$", "checks": {"quick": 300, "thorough": 2500}, "shards": {"quick": 1, "thorough": 16},
+             "timeout": {"quick": 900, "thorough": 3400}},
+        ],
+    },
 }
